@@ -512,6 +512,42 @@ example :
     ∧ durationEntries (-1500000000) = [([nSeconds], .single (.int (-1))), ([nNanos], .single (.int (-500000000)))] := by
   decide
 
+/-- **Integer text, value**: an accepted text denotes its value — optional sign, then decimal digits read left to right
+    (`digitsVal`): no other base, nothing truncated or wrapped (ranges: `C04_int_text`, `C04_uint_text`). The canonical
+    proto3 JSON mapping assigns a decimal literal exactly this value; the code additionally accepts a leading '+' and
+    leading zeros (as `strconv` does), with the same reading. -/
+theorem C04_int_text_value (s : Bytes) (bits : Nat) (i : Int) (h : parseInt s bits = some i) :
+    ∃ c rest, s = c :: rest ∧
+      i = (if c == 45 then -1 else 1) * ((digitsVal 0 (if c == 43 || c == 45 then rest else s) : Nat) : Int) := by
+  cases s with
+  | nil => simp [parseInt] at h
+  | cons c rest =>
+    rw [parseInt_cons] at h
+    refine ⟨c, rest, rfl, ?_⟩
+    cases hd : parseDigits (if c == 43 || c == 45 then rest else c :: rest) with
+    | none => simp only [hd] at h; simp at h
+    | some n =>
+      have hn : n = digitsVal 0 (if c == 43 || c == 45 then rest else c :: rest) := parseDigits_val hd
+      simp only [hd] at h
+      split at h
+      · simp at h
+      · split at h
+        · simp at h
+        · simp only [Option.some.injEq] at h
+          rw [← h, ← hn]
+          cases hb : (c == 45) <;> simp
+
+theorem C04_uint_text_value (s : Bytes) (bits n : Nat) (h : parseUint s bits = some n) : n = digitsVal 0 s := by
+  unfold parseUint at h
+  cases hd : parseDigits s with
+  | none => simp [hd] at h
+  | some m =>
+    have hm : m = digitsVal 0 s := parseDigits_val hd
+    simp only [hd] at h
+    split at h
+    · simp at h; rw [← h, hm]
+    · simp at h
+
 /-- **Wrappers and FieldMask are fully modelled**: the result does not depend on the oracle table, an accepted text
     gives `{value: v}` for the value the scalar parser of the wrapped kind yields (`C04_int_text`, `C04_uint_text`,
     `C04_bool_text`, `C04_string_text`, `C04_bytes_text`: ranges per kind, leading '+' and leading zeros accepted for the
